@@ -36,13 +36,17 @@ PREFIXES = ['checkpoint_', 'ckpt', 'test_', 'v2_step']
 
 
 def payload(pay):
-  return {'a': np.arange(3, dtype=np.int32) + pay, 'n': {'b': np.float32(pay) * 0.5}, 'pay': np.int64(pay)}
+  # (f, t: leaves that are not C-contiguous - column-major storage and a transposed view)
+  return {'a': np.arange(3, dtype=np.int32) + pay, 'n': {'b': np.float32(pay) * 0.5}, 'pay': np.int64(pay),
+          'f': np.asfortranarray(np.arange(6, dtype=np.float32).reshape(2, 3) + pay), 't': (np.arange(6, dtype=np.int32).reshape(3, 2) - pay).T}
 
 
 def same_tree(x, pay):
   try:
     return (np.array_equal(np.asarray(x['a']), np.arange(3) + pay) and float(np.asarray(x['n']['b'])) == pay * 0.5
-            and int(np.asarray(x['pay'])) == pay and set(x) == {'a', 'n', 'pay'})
+            and int(np.asarray(x['pay'])) == pay and set(x) == {'a', 'n', 'pay', 'f', 't'}
+            and np.array_equal(np.asarray(x['f']), np.arange(6, dtype=np.float32).reshape(2, 3) + pay)
+            and np.array_equal(np.asarray(x['t']), (np.arange(6, dtype=np.int32).reshape(3, 2) - pay).T))
   except Exception:
     return False
 
